@@ -156,7 +156,78 @@ def c05():
                 ASSUME_TRACE)
 
 
-CHECKS = {"C01": c01, "C02": c02, "C03": c03, "C04": c04, "C05": c05}
+def status_off(kname):
+    return 0x41 if kname.startswith("K5") else 0x25
+
+
+def fam_ro(prop, kset, n_prog, n_ops, salt=0):
+    rng = rng_for(prop, 300 + salt)
+    progs = []
+    for kname in kset:
+        cfg = gen.K(kname)
+        for i in range(n_prog):
+            variant = i % 6
+            poke = None
+            end_setup = "unmount"
+            if variant == 1:
+                end_setup = "abandon"  # volume is dirty at the next mount
+            elif variant == 2 and kname.startswith("K5"):
+                poke = [[512 + 488, [255, 255, 255, 255]]]  # FSInfo free count unknown
+            elif variant == 3 and kname.startswith("K5"):
+                poke = [[512 + 492, [255, 255, 255, 255]]]  # FSInfo next-free hint unknown
+            elif variant == 4:
+                poke = [[status_off(kname), [rng.choice([1, 2, 3])]]]  # dirty / io-error bits set by someone else
+            progs.append(gen.ro_program(rng, "ro-%s-%d" % (kname, i), cfg, CS[kname], n_ops, end_setup=end_setup, poke=poke,
+                                        end=rng.choice(["unmount", "dropfs"])))
+    return progs
+
+
+def c13():
+    t0 = time.time()
+    wd = workdir("C13")
+    res = []
+    res.append(("ro", core.campaign("ro", fam_ro("C13", ["K1b", "K3", "K5"], scale(30, 300), 40), wd)))
+    core.finish("C13", LEVEL, res, None, t0,
+                "populated FAT12/16/32 volumes (clean, abandoned-dirty, FSInfo count/hint unknown, foreign status bits), then sessions of non-mutating "
+                "calls only; TLC checks that no device write is issued (FSInfo exemption after statistics without a usable count)",
+                ASSUME_TRACE)
+
+
+def with_status(cfg, kname, byte):
+    c = json.loads(json.dumps(cfg))
+    c["vol"]["patch"] = [[status_off(kname), [byte]]]
+    return c
+
+
+def c12():
+    t0 = time.time()
+    wd = workdir("C12")
+    rng = rng_for("C12", 1)
+    names = gen.NAMES_ASCII
+    progs = []
+    for kname in ["K1b", "K2", "K5"]:
+        for i in range(scale(24, 240)):
+            # status byte found at mount: clean, dirty, io-error, reserved high bits
+            st = [0, 0, 1, 2, 0xF0, 0xF1, 0x80, 3][i % 8]
+            cfg = with_status(gen.K(kname), kname, st) if st else gen.K(kname)
+            if i % 3 == 0:
+                p = gen.io_program(rng, "st-io-%s-%d" % (kname, i), cfg, CS[kname], 30, n_files=2)
+            else:
+                p = gen.ns_program(rng, "st-ns-%s-%d" % (kname, i), cfg, 30, names)
+            # end some sessions by dropping the file system or abandoning it, and continue afterwards
+            k = rng.randrange(5, len(p["ops"]))
+            p["ops"].insert(k, {"op": rng.choice(["unmount", "dropfs", "abandon"])})
+            progs.append(p)
+    res = [("status", core.campaign("status", progs, wd))]
+    res.append(("ro", core.campaign("ro", fam_ro("C12", ["K1b", "K5"], scale(10, 100), 25), wd)))
+    core.finish("C12", LEVEL, res, None, t0,
+                "namespace and file-I/O histories on volumes whose status byte at mount is clean/dirty/io-error/has reserved bits; after every call TLC "
+                "checks dirty-bit bracketing of structural changes (computed from raw-image diffs), bits never cleared, restoration at unmount/drop, and "
+                "that a fresh mount of the image at that point reports dirty",
+                ASSUME_TRACE)
+
+
+CHECKS = {"C01": c01, "C02": c02, "C03": c03, "C04": c04, "C05": c05, "C12": c12, "C13": c13}
 
 
 def run(prop):
